@@ -185,7 +185,7 @@ def extra_items(tier):
     for i in range(0, nv, step * stride):
         items.append(("c08", (tier, i, min(i + step, nv))))
     items.append(("attrs", 0))
-    for v in range(8):
+    for v in range(12):
         items.append(("collide", v))
     return items
 
